@@ -1,5 +1,6 @@
 (* C06 model driver (ZixTree).  One case per line:
-     d0|d1 <op> <op> ...       d1 = duplicates allowed
+     d0|d1[z] <op> <op> ...    d1 = duplicates allowed; z = the C driver stores the first live key-0 element as the NULL
+                               pointer (elements are opaque void*; nothing changes for the models)
    ops:  i<key>  insert (key, tag = serial number of the insert call = identity of the element)
          I<key>  the same with the node allocation failing
          r<id>   remove the element with that identity through the iterator held since its insertion
@@ -64,7 +65,7 @@ let () =
     match split_ws line with
     | [] -> Printf.printf "M ?\nS ?\n"
     | pol :: ops ->
-      let dup = (pol = "d1") in
+      let dup = (String.length pol >= 2 && pol.[0] = 'd' && pol.[1] = '1') in   (* d0|d1, optional suffix z = NULL-element mode of the C driver (elements are abstract here) *)
       let st = ref AvlModel.init in
       let hs = ref AvlHeapModel.hinit in
       let sp = ref (([], Z0) : AvlSpec.sstate) in
